@@ -25,23 +25,22 @@ RULE = (
     "parameters in permuted order: Call output wiring vs _update_inout_ports model. Non-trivial = path depth >= 2 or a "
     "subscript on the path; >= 2 borrowed parameters for signatures; distinct by canonical request. (3) assignment probes "
     "`<place>.f = v` (StmtCompiler._assign_place) for paths ending in a struct field of affine type array[int, 2]: same "
-    "extraction / emission / interpretation against store[pi := v]"
+    "extraction / emission / interpretation against store[pi := v]; and `<place>[i] = v` for a copyable element (classical set)"
 )
 ASSUMPTIONS = [
     "assumed op semantics (outside the repo): UnpackTuple/MakeTuple are the tuple projections/constructor; borrow(arr,i) hands out "
     "element i leaving a hole, return(arr,i,v) fills the hole (both panic otherwise); itousize is the identity on non-negative "
     "indices (index conversion and bounds are C19); Call applies the callee to its inputs",
     "the callee's effect on its borrowed argument is an arbitrary function of the argument's value (no aliasing: the type system is linear)",
-    "all values on modelled paths have linear (non-copyable, non-droppable) types: DFContainer pops the child wires when it packs a struct/tuple",
+    "component types are linear (qubit), copyable (int) or built from them (arrays, structs, tuples); DFContainer forgets the wires of "
+    "linear children only when it packs (modelled: Ty.lin / popLin); on a borrowed path every container is non-copyable",
     "HUGR dataflow: a straight-line block computes its outputs from its inputs by evaluating nodes in dependency order",
 ]
 UNMODELLED = [
     "runtime values (qubits, gate effects): leaves are opaque numbers, the callee is an arbitrary function",
     "the wire-level theorem (wire_writeback) is about the MODEL's emission emitW, which is tied to the real compiler by per-probe "
-    "comparison (T-obj), and assumes a store that conforms to the root type; the assignment variant emitAssignW is compared and "
-    "executed per probe, not proved at wire level",
-    "affine (non-copyable but droppable) values such as array[int, n] fields: DFContainer does not pop them when packing (see notes: "
-    "stale struct wire after a move followed by field-wise reassignment)",
+    "comparison (T-obj), and assumes a store that conforms to the root type; the classical-set assignment emitAssignSetW is compared and "
+    "executed per probe, not proved at wire level (its place-level sequence is: assign_set_lens)",
     "comptime functions (update_packed_value, D15 is under C21), classical setitem (get/set) write-back, index expressions with side effects (C05), "
     "places on the left of assignments (`xs[i].f = v`, _assign_place) beyond the shared __setitem__ cascade",
 ]
@@ -54,13 +53,13 @@ MANIFEST = {
     "place-level borrow/call/return sequence emitted for callee(pi) terminates without panic and turns the store into "
     "store[pi := callee(store[pi])] (writeback_lens, by induction on the number of subscripts with the lens laws put-get/get-put/"
     "put-put/append proved for all paths), every non-overlapping part of the store is unchanged (writeback_frame), the caller reads "
-    "the callee's result at pi (writeback_observed); assignment to a place gives store[pi := v] (assign_lens); for EVERY well-typed path (fields, tuple indices, subscripts, any nesting) and conforming store the wire-level SSA op list itself - tuple unpack/pack plumbing of DFContainer, itousize, borrow/return, Call with all wiring - computes the lens update (wire_writeback: DFContainer get/set characterised for all types by mutual induction, forward simulation of the cascade); k borrowed parameters give k extra outputs after the results in parameter "
+    "the callee's result at pi (writeback_observed); assignment to a place gives store[pi := v] (assign_lens, wire level: wire_assign; copyable array element via classical set: assign_set_lens); for EVERY well-typed path (fields, tuple indices, subscripts, any nesting) and conforming store the wire-level SSA op list itself - tuple unpack/pack plumbing of DFContainer, itousize, borrow/return, Call with all wiring - computes the lens update (wire_writeback: DFContainer get/set characterised for all types by mutual induction, forward simulation of the cascade); k borrowed parameters give k extra outputs after the results in parameter "
     "order and _update_inout_ports consumes exactly those (inout_ports_count_order). Tied to /repo every run: for generated typed "
     "paths the REAL compiler's op list and wiring is extracted from the Hugr, compared with the model's wire-level emission, and "
     "interpreted (Python and Lean) against the lens and against the place-level sequence; FuncDefn signatures and Call wiring are "
     "read from lowered probes.",
     "level_note": "Partial: runtime values are unmodelled; the wire-level theorem is about the model's emission (tied to the real compiler by "
-    "per-probe comparison) and well-typed stores; the assignment variant is checked per probe only; only linear element/field types are modelled. Trusted: Lean kernel + propext/Classical.choice/Quot.sound, "
+    "per-probe comparison) and well-typed stores; the classical-set assignment is checked per probe at wire level; linear, affine and copyable component types are modelled. Trusted: Lean kernel + propext/Classical.choice/Quot.sound, "
     "the Hugr op-list extractor, assumed op semantics. Probes are sampling (all step-kind sequences up to the tier's depth).",
     "technique": "Lean 4 proof (lens laws + cascade induction) + per-run extraction of the real lowering (T-obj) with a store-semantics oracle",
     "design_ref": "DESIGN.md §5 C07",
@@ -85,8 +84,10 @@ class Probe:
 def ty_src(t):
     if t[0] == "q":
         return "qubit"
-    if t[0] == "ai":  # an affine (non-copyable, droppable) leaf: target of assignment probes
+    if t[0] == "ai":  # an affine (non-copyable, droppable) component: array of copyable elements
         return "array[int, 2]"
+    if t[0] == "c":  # a copyable leaf
+        return "int"
     if t[0] == "arr":
         return f"array[{ty_src(t[1])}, {t[2]}]"
     if t[2] is not None:
@@ -95,8 +96,12 @@ def ty_src(t):
 
 
 def ty_sexp(t):
-    if t[0] in ("q", "ai"):
+    if t[0] == "q":
         return "q"
+    if t[0] == "c":
+        return "c"
+    if t[0] == "ai":
+        return "(arr c)"
     if t[0] == "arr":
         return f"(arr {ty_sexp(t[1])})"
     return "(tup " + " ".join(ty_sexp(x) for x in t[1]) + ")"
@@ -115,19 +120,29 @@ def gen_probe(rng, kinds, arg_kind="q"):
         return ("tup", fields, name)
 
     def filler():
+        # siblings of the path: linear (qubit, array of qubits, tuple of qubits), copyable (int) and affine (array of ints)
+        # components — DFContainer forgets only the wires of LINEAR children when it packs
         k = rng.random()
-        if k < 0.6:
+        if k < 0.4:
             return ("q",)
-        if k < 0.8:
+        if k < 0.55:
+            return ("c",)
+        if k < 0.7:
+            return ("ai",)
+        if k < 0.85:
             return ("arr", ("q",), 2)
-        return ("tup", [("q",), ("q",)], None)
+        return ("tup", [("q",), rng.choice([("q",), ("c",)])], None)
 
     if arg_kind == "q":
         t = ("q",)
     elif arg_kind == "ai":
         t = ("ai",)
+    elif arg_kind == "c":
+        t = ("c",)
     elif arg_kind == "struct":
         t = mk_struct([("q",), ("q",)])
+    elif arg_kind == "mixed":
+        t = mk_struct([("q",), ("c",), ("ai",)])
     elif arg_kind == "arr":
         t = ("arr", ("q",), 2)
     else:
@@ -145,8 +160,7 @@ def gen_probe(rng, kinds, arg_kind="q"):
         else:
             arity = rng.choice([2, 2, 3])
             pos = rng.randrange(arity)
-            # the struct that holds an assignment target keeps qubit siblings (so it stays linear)
-            elems = [(("q",) if (innermost and arg_kind == "ai") else filler()) for _ in range(arity)]
+            elems = [filler() for _ in range(arity)]
             elems[pos] = t
             t = mk_struct(elems) if kind == "field" else ("tup", elems, None)
             steps_rev.append(("proj", pos))
@@ -187,7 +201,8 @@ def assign_src(p: Probe):
             expr += (f".f{s[1]}" if t[2] is not None else f"[{s[1]}]")
             t = t[1][s[1]]
     params = "".join(f", i{j}: int" for j in range(1, p.m + 1))
-    out.append(f"@guppy\ndef probe(x: {ty_src(p.root_ty)}{params}, v: {ty_src(p.arg_ty)} @owned) -> None:\n    {expr} = v\n")
+    owned = "" if p.arg_ty[0] == "c" else " @owned"
+    out.append(f"@guppy\ndef probe(x: {ty_src(p.root_ty)}{params}, v: {ty_src(p.arg_ty)}{owned}) -> None:\n    {expr} = v\n")
     return "\n".join(out), expr
 
 
@@ -207,8 +222,10 @@ _leaf = itertools.count(1)
 
 
 def mk_store(t, counter):
-    if t[0] in ("q", "ai"):
+    if t[0] in ("q", "c"):
         return ("l", next(counter))
+    if t[0] == "ai":
+        return ("a", [("l", next(counter)), ("l", next(counter))])
     if t[0] == "arr":
         return ("a", [mk_store(t[1], counter) for _ in range(t[2])])
     return ("t", [mk_store(x, counter) for x in t[1]])
@@ -298,6 +315,26 @@ def py_run(prog, inputs):
                     raise Panic("notBorrowed")
                 cs[i] = vals[2]
                 res = [("a", cs)]
+            elif nm == "set":
+                if len(vals) != 3 or vals[0] == "h" or vals[0][0] != "a" or vals[1] == "h" or vals[1][0] != "usize":
+                    raise Panic("illTyped")
+                if vals[2] != "h" and vals[2][0] in ("int", "usize", "either"):
+                    raise Panic("illTyped")
+                cs, i = list(vals[0][1]), vals[1][1]
+                if i >= len(cs):
+                    res = [("either", False, vals[2], ("a", cs))]
+                elif cs[i] == "h":
+                    raise Panic("alreadyBorrowed")
+                else:
+                    old = cs[i]
+                    cs[i] = vals[2]
+                    res = [("either", True, old, ("a", cs))]
+            elif nm == "unwrap":
+                if len(vals) != 1 or vals[0] == "h" or vals[0][0] != "either" or ps != ["1", "Array index out of bounds"]:
+                    raise Panic("illTyped")
+                if not vals[0][1]:
+                    raise Panic("badPath")
+                res = [vals[0][2], vals[0][3]]
             elif nm == "drop":
                 if len(vals) != 1 or (vals[0] != "h" and vals[0][0] in ("int", "usize")):
                     raise Panic("illTyped")
@@ -493,9 +530,9 @@ def tie(ctx):
         seqs += all_seqs
     probes = []
     for ks in seqs:
-        args = [arg_of.get(ks, "q")] if ks in arg_of else (["q"] if ctx.quick and len(ks) >= 2 else ["q", rng.choice(["struct", "arr", "tup"])])
+        args = [arg_of.get(ks, "q")] if ks in arg_of else (["q"] if ctx.quick and len(ks) >= 2 else ["q", rng.choice(["struct", "arr", "tup", "ai", "mixed"])])
         if not ctx.quick and len(ks) <= 2:
-            args = ["q", "struct", "arr", "tup"]
+            args = ["q", "struct", "arr", "tup", "ai", "mixed"]
         for a in args:
             probes.append((ks, a, gen_probe(rng, list(ks), a)))
     cases, lines = [], []
@@ -570,7 +607,7 @@ def tie(ctx):
         src, expr = assign_src(p)
         idxs = [rng.randrange(0, 3) for _ in range(p.m)]
         store = mk_store(p.root_ty, itertools.count(1))
-        newv = ("l", 900)
+        newv = ("a", [("l", 900), ("l", 901)])
         try:
             prog, sig, _in, _out = extract_probe(src)
             err = None
@@ -586,7 +623,63 @@ def tie(ctx):
         else:
             lines.append(f"(lens2 {ps} {val_sexp(store)} {val_sexp(newv)})")
 
+    # ---- assignment to a copyable array element (`x...[i] = v`, classical set): paths ending in a subscript
+    s_seqs = [tuple(c["kinds"]) for c in corpus if c.get("kind") == "assignset"]
+    sub_seqs = [ks + ("sub",) for ks in _all_kind_seqs(2 if ctx.quick else 3)]
+    if ctx.quick:
+        rng.shuffle(sub_seqs)
+        sub_seqs = sub_seqs[:8]
+    s_cases = []
+    for ks in s_seqs + sub_seqs:
+        p = gen_probe(rng, list(ks), "c")
+        src, expr = assign_src(p)
+        idxs = [rng.randrange(0, 3) for _ in range(p.m)]
+        store = mk_store(p.root_ty, itertools.count(1))
+        newv = ("l", 900)
+        try:
+            prog, sig, _in, _out = extract_probe(src)
+            err = None
+        except Exception as e:  # noqa: BLE001
+            prog, sig, err = None, None, e
+        s_cases.append((ks, p, src, expr, idxs, store, newv, prog, sig, err))
+        ps = path_sexp(p, idxs)
+        lines.append(f"(emitset {ty_sexp(p.root_ty)} {ps})")
+        lines.append(f"(runaset {ps} {val_sexp(store)} {val_sexp(newv)})")
+        lines.append(f"(lens2 {ps} {val_sexp(store)} {val_sexp(newv)})")
+        if prog is not None:
+            lines.append(f"(runw2 {sexp(prog)} {val_sexp(store)} ({' '.join(map(str, idxs))}) {val_sexp(newv)})")
+        else:
+            lines.append(f"(lens2 {ps} {val_sexp(store)} {val_sexp(newv)})")
+
     reps = ctx.driver(DRIVER, lines)
+
+    # ---- evaluate set-assignment probes
+    base3 = 5 * len(cases) + len(sig_runs) + 4 * len(a_cases)
+    for k, (ks, p, src, expr, idxs, store, newv, prog, sig, err) in enumerate(s_cases):
+        model_emit, model_runa, model_lens, model_runw = reps[base3 + 4 * k: base3 + 4 * k + 4]
+        case = {"kind": "assignset", "kinds": list(ks), "expr": expr, "root": ty_src(p.root_ty), "idxs": idxs}
+        ctx.count({"assignset": expr, "root": ty_sexp(p.root_ty)}, nontrivial=len(ks) >= 2, kind=f"assignset:depth{len(ks)}:subs{p.m}")
+        key = f"input:assignset {ty_src(p.root_ty)} :: {expr} = v :: {[(n, [ty_src(t) for t in fs]) for n, fs in p.structs]}"
+        if prog is None:
+            ctx.violation(key, f"assignment {expr} = v with x: {ty_src(p.root_ty)} is not compiled: {type(err).__name__}: {err}",
+                          {"case": case, "source": src, "error": repr(err)})
+            continue
+        want = "ok " + val_sexp(oracle_assign(store, p, idxs, new=newv))
+        real = py_run(prog, [store] + [("int", i) for i in idxs] + [newv])
+        real_s = sexp(prog)
+        if real.startswith("err unknownOp:"):
+            ctx.broke(f"{expr} = v: extracted op list contains an operation without modelled semantics: {real}")
+        elif real != want:
+            ctx.violation(key, f"{expr} = v with x: {ty_src(p.root_ty)}, indices {idxs}: the lowered op list turns the store "
+                          f"{val_sexp(store)} into {real}; reference semantics (store[pi := v]) gives {want}",
+                          {"case": case, "source": src, "extracted": real_s, "real": real, "oracle": want})
+        if real_s != model_emit:
+            ctx.broke(f"T-obj: lowering of `{expr} = v` [x: {ty_src(p.root_ty)}] differs from the model's emission "
+                      f"(real={real_s} model={model_emit})")
+        if model_runw != real:
+            ctx.broke(f"Lean vs Python interpretation of the extracted op list for `{expr} = v`: {model_runw} vs {real}")
+        if model_runa != want or model_lens != want:
+            ctx.broke(f"Lean place-level sequence / lens on `{expr} = v`: runa={model_runa} lens={model_lens} expected {want}")
 
     # ---- evaluate assignment probes
     base2 = 5 * len(cases) + len(sig_runs)
